@@ -1245,8 +1245,8 @@ bool tNMEA2000::Open() {
   if ( OpenState==os_Open ) return true;
 
   if ( OpenState==os_None ) {
+    InitDevices(); // Must be before InitCANFrameBuffers, since it scales MaxCANSendFrames with the device count.
     InitCANFrameBuffers();
-    InitDevices();
 
     if ( N2kCANMsgBuf==0 ) {
       if ( MaxN2kCANMsgs==0 ) MaxN2kCANMsgs=5;
